@@ -269,13 +269,13 @@ def runHandler (recur : List Char → List String → List Mich → M Mich) (fun
     pure (.seq [← constPrim "SWAP", expr "UPDATE" annots [.int 2]])
   | "expand_set_caxr" => do
     assertThat args.isEmpty
-    let setCxr ← recur ("SET_C".toList ++ prim ++ ['R']) (fieldAnnots annots) []
+    let setCxr ← recur ('S' :: 'E' :: 'T' :: '_' :: 'C' :: prim ++ ['R']) (fieldAnnots annots) []
     let pair := expr "PAIR" (["%@", "%@"] ++ varAnnots annots) []
     pure (.seq [← constPrim "DUP", dipN (.seq [← constPrim "CAR__", setCxr]) 1, ← constPrim "CDR__",
       ← constPrim "SWAP", pair])
   | "expand_set_cdxr" => do
     assertThat args.isEmpty
-    let setCxr ← recur ("SET_C".toList ++ prim ++ ['R']) (fieldAnnots annots) []
+    let setCxr ← recur ('S' :: 'E' :: 'T' :: '_' :: 'C' :: prim ++ ['R']) (fieldAnnots annots) []
     let pair := expr "PAIR" (["%@", "%@"] ++ varAnnots annots) []
     pure (.seq [← constPrim "DUP", dipN (.seq [← constPrim "CDR__", setCxr]) 1, ← constPrim "CAR__", pair])
   | "expand_map_car" => do
@@ -287,12 +287,12 @@ def runHandler (recur : List Char → List String → List Mich → M Mich) (fun
     pure (.seq ([← constPrim "DUP", expr "CDR" varAn []] ++ args ++
       [← constPrim "SWAP", ← constPrim "CAR__", expr "PAIR" ["%@", cdrAnnot] []]))
   | "expand_map_caxr" => do
-    let mapCxr ← recur ("MAP_C".toList ++ prim ++ ['R']) (fieldAnnots annots) args
+    let mapCxr ← recur ('M' :: 'A' :: 'P' :: '_' :: 'C' :: prim ++ ['R']) (fieldAnnots annots) args
     let pair := expr "PAIR" (["%@", "%@"] ++ varAnnots annots) []
     pure (.seq [← constPrim "DUP", dipN (.seq [← constPrim "CAR__", mapCxr]) 1, ← constPrim "CDR__",
       ← constPrim "SWAP", pair])
   | "expand_map_cdxr" => do
-    let mapCxr ← recur ("MAP_C".toList ++ prim ++ ['R']) (fieldAnnots annots) args
+    let mapCxr ← recur ('M' :: 'A' :: 'P' :: '_' :: 'C' :: prim ++ ['R']) (fieldAnnots annots) args
     let pair := expr "PAIR" (["%@", "%@"] ++ varAnnots annots) []
     pure (.seq [← constPrim "DUP", dipN (.seq [← constPrim "CDR__", mapCxr]) 1, ← constPrim "CAR__", pair])
   | _ => throw .unrecognised
